@@ -194,10 +194,9 @@ Proof.
   pose proof (final_entries_bufs enc16 pol hts gis 0) as Lb. fold vs in Lb.
   pose proof (sum_sizes_nonneg enc16 pol hts gis 0) as Ls. fold vs in Ls.
   pose proof (zlen_nonneg table) as Ht0. unfold nvar_guid_size in *.
-  rewrite Lb.
-  rewrite (Z.mod_small (s_len t - 16 * zlen table)) by lia.
-  rewrite Z.mod_small by lia.
-  replace (2 ^ 47 <=? s_len t - 16 * zlen table - sum_list (map v_size vs)) with false by lia.
+  rewrite Lb. cbv zeta.
+  replace ((s_len t <? 16 * zlen table) || (s_len t - 16 * zlen table <? sum_list (map v_size vs)))
+    with false by lia.
   unfold compacted. fold hts.
   replace (assign_gidx hts []) with (gis, table) by (unfold gis, table; destruct (assign_gidx hts []); reflexivity).
   fold vs. rewrite Lb. unfold nvar_guid_size. reflexivity.
@@ -216,9 +215,10 @@ Proof.
   destruct (map_out (asm_nvar enc16 pol d) (s_entries t)) as [es| | |] eqn:M; try discriminate.
   cbn [bind] in H. cbv zeta in H.
   set (nv := concat (map v_buf es)) in *.
-  set (goff := (s_len t - nvar_guid_size * zlen (s_guids t)) mod 2 ^ 64) in *.
-  set (gap := (goff - zlen nv) mod 2 ^ 64) in *.
-  destruct (2 ^ 47 <=? gap) eqn:G; [discriminate|].
+  set (gsl := nvar_guid_size * zlen (s_guids t)) in *.
+  destruct ((s_len t <? gsl) || (s_len t - gsl <? zlen nv)) eqn:G; [discriminate|].
+  set (goff := s_len t - gsl) in H.
+  set (gap := goff - zlen nv) in H.
   apply (f_equal (fun o => match o with Ok x => x | _ => t end)) in H. cbv beta iota in H.
   pose proof (f_equal s_entries H) as E1. pose proof (f_equal s_buf H) as E2.
   pose proof (f_equal s_free H) as E3. pose proof (f_equal s_goff H) as E4.
@@ -236,7 +236,7 @@ Proof.
     destruct (bytes_eqb (v_name v) n); [|reflexivity]. apply set_type_fields. }
   rewrite asm_store_unfold. rewrite M'. cbn [bind]. cbv zeta. rewrite Eb.
   change (s_len (invalidate n t)) with (s_len t). change (s_guids (invalidate n t)) with (s_guids t).
-  fold nv. fold goff. fold gap. rewrite G.
+  fold nv. fold gsl. rewrite G. fold goff. fold gap.
   unfold invalidate at 2. rewrite <- E2, <- E3, <- E4. reflexivity.
 Qed.
 
